@@ -359,7 +359,25 @@ class Exec:
         how = op["how"]
 
         def mut_trial(ft, k):
-            k %= 7
+            k %= 9
+            if k == 7 and not ft.distributions:
+                k = 0
+            if k == 8 and not any(isinstance(v, (list, dict)) for v in list(ft.user_attrs.values()) + list(ft.system_attrs.values())):
+                k = 3
+            if k == 7:       # one level deeper: the distribution OBJECTS of a deep copy belong to the caller as well
+                for d in ft.distributions.values():
+                    if hasattr(d, "choices"):
+                        d.choices = tuple(d.choices) + ("zz",)
+                    else:
+                        d.high = d.high + 1
+                return "distribution objects edited in place"
+            if k == 8:       # ... and so do nested attribute values
+                for v in list(ft.user_attrs.values()) + list(ft.system_attrs.values()):
+                    if isinstance(v, list):
+                        v.append("zz")
+                    elif isinstance(v, dict):
+                        v["zz"] = 1
+                return "nested attribute values edited in place"
             if k == 0:
                 ft.user_attrs["zz"] = 1
             elif k == 1:
